@@ -20,6 +20,7 @@ func VerifC20_v1_join() {
 	d, err := New(Opts[int]{Input: in, JoinSize: uint(JS), Released: released})
 	vAssume(err == nil)
 	vRole("consumer")
+	vRole("control")
 	vRole("producer")
 	for i := 0; i < M; i++ {
 		in <- vNondetInt("x")
@@ -49,17 +50,29 @@ func VerifC20_v1_join() {
 	vOnBlock(d.output, consume)
 	if nocopy {
 		// the discipline waits for the release: the consumer takes the slice, uses it, releases
+		stopMid := vChoose("stop-while-unreleased", 2) == 1
+		stopped := false
 		vOnBlock(released, func() {
-			if len(d.output) == 0 {
+			if stopped || len(d.output) == 0 {
 				vDecline()
 				return
 			}
 			vRole("consumer")
 			s := <-d.Output()
-			vTouchR(s) // no-copy: the consumer reads the slice it was lent, then releases it
+			vTouchR(s) // no-copy: the consumer reads the slice it was lent ...
+			if stopMid {
+				// ... and keeps it for ever: another goroutine stops the discipline before any release
+				kept = append(kept, s)
+				stopped = true
+				vRole("control")
+				vBreakSignal(d.breaker)
+				vRole("goroutine0")
+				return
+			}
 			vPark(released, struct{}{})
 			vRole("goroutine0")
 		})
+		vOnBlock(d.opts.Input, func() { vDecline() })
 	}
 	vRunSpawned(0)
 	vRole("consumer")
@@ -69,6 +82,9 @@ func VerifC20_v1_join() {
 			vTouchW(s)
 		}
 		kept = append(kept, s)
+	}
+	for _, k := range kept {
+		vTouchR(k) // a slice that was never released stays the consumer's: it may read it at any time
 	}
 	if !nocopy {
 		for _, k := range kept {
